@@ -34,6 +34,8 @@ UniqueFoot(q, v) == LET m == CurveMinD2(q, v)
                         A == {k \in 1..(Len(v) - 1) : REq(SegD2(q, v[k], v[k + 1]), m)} IN
     \A k1, k2 \in A : RPtEq(Foot(q, v[k1], v[k1 + 1]), Foot(q, v[k2], v[k2 + 1]))
 
+\* dirty inputs: with a tolerance of tolU lattice units the vertices of the curve are the model's Survivors of the listing
+RTol(r) == IF "tolU" \in DOMAIN r THEN r.tolU ELSE 0
 JCurve(r) ==
     LET o == r.out T == r.T IN
     /\ Clause(i, "C03.curve.finite", o.finite)
@@ -48,11 +50,11 @@ JCurve(r) ==
               /\ o.s0[j].some = o.s1[j].some
               /\ o.s0[j].some => PointMoved(T, o.s0[j].p, o.s1[j].p, TP)
               \* (at an interior vertex length the moved curve's rounded lengths decide between edge and vertex rule: free)
-              /\ (o.s0[j].some /\ (r.ls[j] = 0 \/ \A k \in 1..Len(r.pts) : 2 * Cum(Built(r.pts, 0, r.fc, r.dim))[k] # r.ls[j]))
+              /\ (o.s0[j].some /\ (r.ls[j] = 0 \/ \A k \in 1..Len(Built(r.pts, RTol(r), r.fc, r.dim)) : 2 * Cum(Built(r.pts, RTol(r), r.fc, r.dim))[k] # r.ls[j]))
                     => DirRotated(T, o.s0[j].d, o.s1[j].d, TN))
         /\ ClauseAll(i, "C03.curve.distance_invariant", 1..Len(r.qs), LAMBDA j : ScalarSame(o.c0[j].dist, o.c1[j].dist, TS))
         /\ ClauseAll(i, "C03.curve.closest_equivariant", 1..Len(r.qs), LAMBDA j :
-              UniqueFoot(r.qs[j], Built(r.pts, 0, r.fc, r.dim)) => PointMoved(T, o.c0[j].p, o.c1[j].p, TP))
+              UniqueFoot(r.qs[j], Built(r.pts, RTol(r), r.fc, r.dim)) => PointMoved(T, o.c0[j].p, o.c1[j].p, TP))
 
 JSeg(r) ==
     LET o == r.out T == r.T IN
@@ -117,10 +119,27 @@ JDist(r) ==
     /\ Clause(i, "C03.distance.to_2d", ScalarSame(o.v2, o.vb, TS) /\ PointMoved(T, o.a2, o.ab, TP) /\ PointMoved(T, o.b2, o.bb, TP) /\ DirRotated(T, o.n2, o.nb, TN))
     /\ Clause(i, "C03.distance.reversal_keeps_value", ScalarSame(o.v2, o.vr, TS))
 
+\* signed 2D profile deviations (metrology::line_profiles) in three frames: as given (f0), moved by T (f1), moved by T2 after T (f2).
+\* The measured points are on the half lattice.  Where the exact closest point is unique, is not an end vertex of an open curve
+\* (straight ahead of an end the side is undefined) and the point is off the curve, the signed value is the same in every frame,
+\* the reference point moves and its normal rotates.  Dirty inputs: tolerance-merged vertices are the model's Survivors.
+JDev2(r) ==
+    LET o == r.out b == Built(r.pts, 0, r.fc, 2) v == DblSeq(b) closed == IsClosedV(b, 0, 2)
+        Fair(q) == /\ UniqueFoot(q, v) /\ CurveMinD2(q, v)[1] > 0
+                   /\ (~closed => (~REq(CurveMinD2(q, v), <<D2(q, v[1]), 1>>) /\ ~REq(CurveMinD2(q, v), <<D2(q, v[Len(v)]), 1>>))) IN
+    /\ Clause(i, "C03.dev2.finite", o.finite)
+    /\ Clause(i, "C03.dev2.shape", Len(o.f0) = Len(r.qs) /\ Len(o.f1) = Len(r.qs) /\ Len(o.f2) = Len(r.qs))
+    /\ (Len(o.f0) = Len(r.qs) /\ Len(o.f1) = Len(r.qs) /\ Len(o.f2) = Len(r.qs)) =>
+        /\ ClauseAll(i, "C03.dev2.signed_deviation_invariant", 1..Len(r.qs), LAMBDA j :
+              Fair(r.qs[j]) => ScalarSame(o.f0[j].v, o.f1[j].v, TS) /\ ScalarSame(o.f1[j].v, o.f2[j].v, TS))
+        /\ ClauseAll(i, "C03.dev2.reference_point_equivariant", 1..Len(r.qs), LAMBDA j :
+              Fair(r.qs[j]) => /\ PointMoved(r.T, o.f0[j].p, o.f1[j].p, TP) /\ PointMoved(r.T2, o.f1[j].p, o.f2[j].p, TP)
+                               /\ DirRotated(r.T, o.f0[j].n, o.f1[j].n, TN) /\ DirRotated(r.T2, o.f1[j].n, o.f2[j].n, TN))
+
 Judge(r) ==
     /\ Sane(i, r)
     /\ Ran(r) =>
-        CASE r.op = "sp" -> JSp(r) [] r.op = "curve" -> JCurve(r) [] r.op = "seg" -> JSeg(r) [] r.op = "mesh" -> JMesh(r) [] r.op = "meshopt" -> JMeshOpt(r) [] r.op = "ccw" -> JCcw(r)
+        CASE r.op = "sp" -> JSp(r) [] r.op = "curve" -> JCurve(r) [] r.op = "seg" -> JSeg(r) [] r.op = "mesh" -> JMesh(r) [] r.op = "meshopt" -> JMeshOpt(r) [] r.op = "ccw" -> JCcw(r) [] r.op = "dev2" -> JDev2(r)
           [] r.op = "cloud" -> JCloud(r) [] r.op = "dist" -> JDist(r) [] r.op = "reset" -> TRUE [] OTHER -> Clause(i, "unknown-op", FALSE)
 Init == i = 1
 Next == i <= Len(Rec) /\ Judge(Rec[i]) /\ i' = i + 1
